@@ -83,7 +83,7 @@ func enum(e *core.EnumCtx) {
 	probes := map[string]int{}
 	reported := map[string]bool{}
 	for ci, item := range corpus {
-		if ci%e.Shards != e.Shard {
+		if ci%e.Shards != e.Shard || e.Expired() {
 			continue
 		}
 		e.Begin(fmt.Sprintf("%d:%s:%s", ci, item.e.name, item.desc))
@@ -106,6 +106,9 @@ func enum(e *core.EnumCtx) {
 			c := &core.Ctx{Rec: rec, Tier: e.Tier, Steps: e.Steps}
 			_, _, cleanSteps := readAndExercise(c, target, msg, 0)
 			tryCase := func(f wire.Fault) {
+				if cases&255 == 0 && e.Expired() {
+					return
+				}
 				damaged := wire.Apply(msg, f, nil)
 				cases++
 				if string(damaged) == string(msg) {
